@@ -12,6 +12,7 @@ RULE = (
     "primitive element from the factorisation of 2^m-1), all triples for m<=4/5 (associativity, distributivity), minimal polynomials against cyclotomic-coset products. "
     "Distinct = (unit, operands); non-trivial = both operands non-zero."
     " Added after the seeded-fault rounds: word-alias operands (v + j(2^61-1), v + 2^32, v + 2^63, v + 2^64, v(2^64+1), ...) after the small pair, and the small pair again."
+    " Round 5: exponents at and around the multiples of the group order (2^m-2, 2^m-1, 2^m, 2(2^m-1), 2(2^m-1)+1, 3(2^m-1), 64(2^m-1)) for every element incl. 0."
 )
 ASSUMPTIONS = ["vk.oracles.gf2m is trusted after its self-test (known primitive polynomials, GF(16) table, BCH generators)", "field instances/elements are cached singletons: monitors never mutate them"]
 REQUIRED = ["poly:a=q*b+r,deg r<deg b", "poly:gcd", "poly:lcm*gcd=a*b", "poly:mul", "field:mul", "field:add", "field:inverse", "field:pow", "field:primitive element order", "field:modulus irreducible", "field:trace", "field:conjugates", "field:minimal polynomial", "field:associative", "field:distributive"]
@@ -168,6 +169,10 @@ def run_unit(ctx, u):
             acc = acc * A
         e = rng.randrange(0, 4 * size)
         okp = okp and (A**e).value == gf2m.powmod(a, e, mod)
+        # exponents at and around the multiples of the group order 2^m-1 (where a reduced exponent wraps to 0)
+        for e2 in (size - 2, size - 1, size, 2 * (size - 1), 2 * (size - 1) + 1, 3 * (size - 1), 64 * (size - 1)):
+            if e2 >= 0 and okp and (A**e2).value != gf2m.powmod(a, e2, mod):
+                okp, e = False, e2
         ctx.check(okp, "field:pow", f"FiniteBifield|{tag}|field:pow|differs", a=a, e=e)
         t = A.trace()
         ctx.check(t in (0, 1) and t == (gf2m.trace(a, mod) if gf2m.is_irreducible(mod) else t), "field:trace", f"FiniteBifield|{tag}|field:trace|not in GF(2) or differs", a=a, trace=t)
